@@ -19,6 +19,7 @@ extern "C" int LLVMFuzzerTestOneInput(const uint8_t* data, size_t size) {
 	c.words.assign(front.begin() + 256, front.begin() + 256 + 8 * n);
 	std::string why = stepBody(c);
 	if (!why.empty()) { FILE* f = fopen((std::string(getenv("FZ_REPLAY_DIR") ? getenv("FZ_REPLAY_DIR") : ".") + "/fuzz-step-last.txt").c_str(), "w"); if (f) { fprintf(f, "sub=step\n%s", c.dump().c_str()); fclose(f); } fz::violation(why); }
+	if (n > 0 && fz::st().evals % 20000 == 1) fz::sample("[fuzz:step] v2=" + std::to_string(c.v2) + " fprc=" + std::to_string(c.fprc) + " words=" + fz::hex(c.words.data(), std::min<size_t>(c.words.size(), 64)) + (c.words.size() > 64 ? "..." : ""));
 	fz::label(c.v2 ? "v2" : "v1");
 	fz::label(n == 0 ? "words:0" : n < 8 ? "words:1-7" : n < 32 ? "words:8-31" : "words:32-64");
 	if (n > 0) fz::nontrivial(fz::fnv(c.words.data(), c.words.size(), c.v2));   // non-trivial: at least one instruction executed
